@@ -128,6 +128,22 @@ PARSE = dict(
            "SSCChart": "(some (⟨[]⟩ : SSCChart))", "SSCCharts": "[]", "SMCharts": "[]", "iter": "{0}"},
     methods={"upper": "(upper {self})", "join": _join})
 
+def _ext_match(fn, args, kw):
+    """extensions.match(name, *exts): the translated function; `*extensions.SIMFILE` is the generated table"""
+    import ast as _ast
+    from gen_code import Unsupported, dotted
+    if kw or not args: raise Unsupported("extensions.match call shape")
+    tables = {"extensions.SIMFILE": "T.simfileExts", "extensions.IMAGE": "T.imageExts", "extensions.AUDIO": "T.audioExts"}
+    rest = args[1:]
+    if len(rest) == 1 and isinstance(rest[0], _ast.Starred) and dotted(rest[0].value) in tables:
+        exts = tables[dotted(rest[0].value)]
+    elif rest and not any(isinstance(a, _ast.Starred) for a in rest):
+        exts = "[" + ", ".join(fn.expr(a) for a in rest) + "]"
+    else:
+        raise Unsupported("extensions.match call shape")
+    return "(Simfile.GenCode.extMatch %s %s)" % (fn.expr(args[0]), exts)
+
+
 BINDINGS = [
     dict(file="simfile/timing/engine.py", qual="TaggedEvent.__lt__", module="Engine", lean="taggedEventLt",
          params=[("self", "TEvent"), ("other", "TEvent")], ret="Bool", model="TEvent.lt", theorem="taggedEventLt_eq",
@@ -340,4 +356,30 @@ BINDINGS = [
          raising_conditions={"_should_copy_property": "(Simfile.GenCode.shouldCopy {0} {1} {2} {3})"},
          # storing into an SM chart refuses keys outside its six fields (KeyError): `setItem` of the model
          mutations={"output[]=": ("output", "(setItem smChartTarget output {key} {value})", True)}),
+
+    # ---- dir.py (C19, C20). The model works on directory listings: the listing is a parameter, and the entry *name* stands for
+    # the joined path (the join itself is modelled in Model/Path.lean and tied separately).
+    dict(file="simfile/dir.py", qual="SimfileDirectory.__init__", module="Dir", lean="scanDir", ret_mode="except",
+         state_params=[("sm_path", "Option Str"), ("ssc_path", "Option Str"), ("listing", "List Str")],
+         params=[("ignore_duplicate", "Bool")], ignore_params=["self", "simfile_dir", "filesystem"],
+         ret="Except DErr SimDir", model="scanDir", theorem="scanDir_eq", properties=["C19"],
+         imports=["Simfile.Model.Dir", "Simfile.Gen.Code.Ext"], fallthrough="(Except.ok ({ sm := sm_path, ssc := ssc_path } : SimDir))",
+         ignore_assign=("self._path", "self.simfile_dir", "self.filesystem", "self._ignore_duplicate"),
+         names={"self.sm_path": "sm_path", "self.ssc_path": "ssc_path", "self._dirlist": "dirlist"},
+         calls={"extensions.match": _ext_match, "self._path.join": "{_0}{1}", "self.filesystem.listdir": "listing{_0}"},
+         truthy={"match": "(py_match ≠ none)", "self.sm_path": "(sm_path ≠ none)", "self.ssc_path": "(ssc_path ≠ none)",
+                 "self._ignore_duplicate": "(ignore_duplicate = true)"},
+         cmp={"Eq": "({0} = some {1})"}, raises={"DuplicateSimfileError": "DErr.duplicate"},
+         mutations={"self._dirlist=": ("dirlist", "{value}"), "self.sm_path=": ("sm_path", "(some {value})"),
+                    "self.ssc_path=": ("ssc_path", "(some {value})")}),
+    dict(file="simfile/dir.py", qual="SimfilePack.banner", module="Dir", lean="packBanner", ret_mode="option",
+         state_params=[("packListing", "List Str"), ("packName", "Str"), ("besideExists", "Str → Bool")],
+         params=[], ignore_params=["self"], ret="Option (Bool × Str)", model="packBanner", theorem="packBanner_eq",
+         properties=["C20", "C19"], imports=["Simfile.Model.Dir", "Simfile.Gen.Code.Ext"], fallthrough="none",
+         names={"extensions.IMAGE": "T.imageExts"}, binops={"Add": "++"},
+         # inside the pack: (true, entry name); beside it: (false, pack name ++ extension)
+         calls={"extensions.match": _ext_match, "self.filesystem.listdir": "packListing{_0}", "self._path.join(self.pack_dir)": "(true, {1})",
+                "self._path.join(songs_dir)": "(false, {1})", "self._path.split": "((), packName){_0}",
+                "self.filesystem.exists": "(besideExists ({0}).2)"},
+         truthy={"extensions.match()": "(({0}).isSome = true)", "self.filesystem.exists()": "({0} = true)"}),
 ]
